@@ -403,7 +403,8 @@ def bind(ctx):
             msg='Domain.find_symbol does not look up self.symbols[name] and fall back to find_class(name)')
     ads = repo.func(OOA + 'Domain.add_symbol')
     a, b = param_names(ads)[:2]
-    r.check(pm.contains('self.symbols[%s] = %s' % (a, b), ads), 'Domain.add_symbol registers the handle under its name', ads,
+    r.check(pm.contains('self.symbols[%s] = %s' % (a, b), ads) or pm.contains('self.symbols.update({%s: %s})' % (a, b), ads) or
+            pm.contains('self.symbols.__setitem__(%s, %s)' % (a, b), ads), 'Domain.add_symbol registers the handle under its name', ads,
             construct=OOA + 'Domain.add_symbol', key='register', msg='Domain.add_symbol does not store self.symbols[name] = handle')
     di = repo.func(OOA + 'Domain.__init__')
     r.check(pm.contains('self.symbols = dict()', di) or pm.contains('self.symbols = {}', di), 'each Domain has its own symbol dictionary', di,
